@@ -123,7 +123,22 @@ def _snap_scale_exact(s, tol, result):
 def _inv_int(name):
     n = Int().make(name + ".n")
     assume(n != 0)
-    return div(1, n)
+    u = div(1, n)
+    # consequences of u*n == 1 for a non-zero INTEGER n, handed to the solver as hints (they are
+    # proved from the definition by lemma math.inv_int_facts below, so nothing is assumed)
+    assume(_inv_int_facts(u, n))
+    return u
+
+
+def _inv_int_facts(u, n):
+    return And(Abs(u) <= 1, Implies(Abs(u) > 0.5, And(Abs(n) == 1, u == n)))
+
+
+def _lemma_inv_int_facts(n, u):
+    claim(_inv_int_facts(u, n), "|1/n| <= 1, and |1/n| > 1/2 only for n = +-1 (where 1/n == n)")
+
+
+lemma("math.inv_int_facts", ["C20", "C10", "C03"], inputs=dict(n=Int(), u=Real()), requires=[lambda n, u: And(n != 0, u * n == 1)], body=_lemma_inv_int_facts, note="justifies the hints attached to the structured 1/<int> result of snap_scale")
 
 
 def _snap_scale_returns(s, tol):
@@ -582,4 +597,206 @@ contract(
     ],
     ghost_args={f"{MATH}:data_resolution_and_offset": lambda call_index, i, j: dict(k=i if call_index == 0 else j)},
     returns=lambda xx: AFFINE(),
+)
+
+
+# ---- Poly2d: input normalisation and chaining (proved); fits (dispatch proved, numerics bounded) ------------------------------------
+
+
+class _GhostCC:
+    """stand-in coefficient array: only its .shape is inspected by the code under proof"""
+
+    def __init__(self, shape):
+        self.shape = shape
+
+
+def _norm_spec(A, x, y):
+    """what Poly2d applies on input: the affine A, with rotation/shear terms below 1e-6 dropped"""
+    fast = And(Abs(A.b) < 1e-6, Abs(A.d) < 1e-6)
+    return fast, (A.a * x + A.c, A.e * y + A.f), (A.a * x + A.b * y + A.c, A.d * x + A.e * y + A.f)
+
+
+def _lemma_poly_norm(A, B, x, y):
+    m = repo(MATH)
+    cc = _GhostCC((2, 2, 2))
+    p = m.Poly2d(cc, A)
+    nx, ny = p._norm(x, y)
+    fast, (fx, fy), (gx, gy) = _norm_spec(A, x, y)
+    claim(Ite(fast, And(nx == fx, ny == fy), And(nx == gx, ny == gy)), "the input normalisation applies the affine it was built with: x with the x scale/offset, y with the y scale/offset (cross terms under 1e-6 dropped)")
+    claim(Iff(fast, p._safe_to_grid is True) if symbolic() else True, "grid evaluation allowed exactly for axis-aligned normalisation")
+    q = p.with_input_transform(B)
+    claim(q._cc is cc, "chaining an input transform keeps the coefficients")
+    qx, qy = q._norm(x, y)
+    AB = A * B
+    fast2, (fx2, fy2), (gx2, gy2) = _norm_spec(AB, x, y)
+    claim(Ite(fast2, And(qx == fx2, qy == fy2), And(qx == gx2, qy == gy2)), "with_input_transform(B): the chained polynomial normalises with A*B, i.e. evaluates the original at B(x, y)")
+
+
+lemma(
+    "math.poly2d_input_transform",
+    ["C20"],
+    inputs=dict(A=AFFINE(), B=AFFINE(), x=Real(), y=Real()),
+    body=_lemma_poly_norm,
+    note="polynomial identities over the affine coefficients; numpy.polyval through its documented Horner form (model)",
+)
+
+
+def _lemma_poly_fit_dispatch(N):
+    m = repo(MATH)
+    P = m.Poly2d
+
+    class Arr:
+        def __init__(self, tag):
+            self.tag, self.shape = tag, (N, 2)
+
+    aa, bb = Arr("aa"), Arr("bb")
+    calls = []
+    saved = (m.norm_xy, P.__dict__["_fit9"], P.__dict__["_fit4"], P.__dict__["_fit3"])
+    try:
+        m.norm_xy = lambda pts, out=None: (("normed", pts.tag), ("A", pts.tag))
+        for name in ("_fit9", "_fit4", "_fit3"):
+            setattr(P, name, staticmethod((lambda nm: lambda a, Ain, b, Ab: calls.append((nm, a, Ain, b, Ab)) or ("poly", nm))(name)))
+        try:
+            out = ("return", P.fit(aa, bb))
+        except ValueError as e:
+            out = ("raise", e)
+    finally:
+        m.norm_xy = saved[0]
+        P._fit9, P._fit4, P._fit3 = saved[1:]
+    if bool(N < 3):
+        claim(out[0] == "raise" and not calls, "fewer than 3 points: ValueError")
+        return
+    want = "_fit9" if bool(N >= 9) else "_fit4" if bool(N >= 4) else "_fit3"
+    claim(len(calls) == 1 and calls[0][0] == want, "9 and more points: biquadratic; 4..8: bilinear; 3: affine -- the richest model the points determine")
+    claim(calls[0][1:] == (("normed", "aa"), ("A", "aa"), ("normed", "bb"), ("A", "bb")) and out == ("return", ("poly", want)), "both point sets are normalised, each with its own transform")
+
+
+lemma("math.poly2d_fit_dispatch", ["C20"], inputs=dict(N=Int(ge=0)), body=_lemma_poly_fit_dispatch, unstub=[f"{MATH}:Poly2d.fit"], note="which model is fitted for which number of points (symbolic N)")
+
+
+# ---- BOUNDED: the numerical linear algebra (numpy lstsq / cholesky): decompose_rws, affine_from_pts, Poly2d fits ----------------
+
+
+def _linalg_samples():
+    import math
+    import random
+
+    from affine import Affine
+
+    rnd = random.Random(int(__import__("os").environ.get("PYVC_SEED", "0")))
+    thorough = __import__("os").environ.get("PYVC_TIER", "quick") == "thorough"
+
+    def gen():
+        affs = []
+        for ang in (0, 17, 45, 90, 133, 180, -60, 270):
+            for sx, sy in ((1, 1), (2, -3), (-10, 0.5), (1e-3, -1e-3), (250, -250)):
+                for w in (0, 0.3, -1.5):
+                    affs.append(Affine.translation(rnd.uniform(-1e3, 1e3), rnd.uniform(-1e3, 1e3)) * Affine.rotation(ang) * Affine(1, w, 0, 0, 1, 0) * Affine.scale(sx, sy))
+        for A in affs if thorough else affs[::3]:
+            yield dict(kind="decompose", A=A)
+        # exactly representable mappings: dyadic coefficients, small integer points
+        for n in (3, 4, 5, 8, 9, 10, 16, 25):
+            for model in ("affine", "bilinear", "biquadratic"):
+                if (model == "bilinear" and n < 4) or (model == "biquadratic" and n < 9):
+                    continue
+                for rep in range(3 if thorough else 1):
+                    side = max(3, math.ceil(math.sqrt(n)))
+                    grid = [(float(i), float(j)) for i in range(side) for j in range(side)]
+                    # points in general position: a lattice block plus an off-lattice jitter that stays dyadic
+                    pts = [(x * 4 + (k % 3) * 0.25, y * 8 - (k % 2) * 0.5) for k, (x, y) in enumerate(grid[:n])]
+                    cf = [rnd.randint(-8, 8) / 4 for _ in range(18)]
+                    yield dict(kind="fit", n=n, model=model, pts=pts, coef=cf, rep=rep)
+        for A in affs[:: (2 if thorough else 7)]:
+            pts = [(0.0, 0.0), (3.0, 1.0), (1.0, 5.0), (6.0, 4.0), (7.0, 9.0), (2.0, 8.0), (9.0, 2.0), (4.0, 4.5), (8.5, 6.0)]  # no three on a line
+            yield dict(kind="affine_from_pts", A=A, pts=pts[: rnd.choice([3, 4, 9])])
+
+    return "decompose_rws on 40 (120 thorough) affines (8 angles x 5 scale pairs incl. negative/unequal/tiny x 3 shears); Poly2d.fit of exactly representable affine / bilinear / biquadratic maps from 3,4,5,8,9,10,16,25 points incl. chaining an unequal-scale and a rotated input transform and grid evaluation; affine_from_pts from 3/4/9 points", gen()
+
+
+def _apply_model(model, cf, x, y):
+    a = cf
+    if model == "affine":
+        return (a[0] + a[1] * x + a[2] * y, a[3] + a[4] * x + a[5] * y)
+    if model == "bilinear":
+        return (a[0] + a[1] * x + a[2] * y + a[3] * x * y / 8, a[4] + a[5] * x + a[6] * y + a[7] * x * y / 8)
+    return (
+        a[0] + a[1] * x + a[2] * y + a[3] * x * y / 8 + a[4] * x * x / 16 + a[5] * y * y / 16 + a[6] * x * x * y / 64 + a[7] * x * y * y / 64 + a[8] * x * x * y * y / 512,
+        a[9] + a[10] * x + a[11] * y + a[12] * x * y / 8 + a[13] * x * x / 16 + a[14] * y * y / 16 + a[15] * x * x * y / 64 + a[16] * x * y * y / 64 + a[17] * x * x * y * y / 512,
+    )
+
+
+def _linalg_oracle(args, run=None):
+    import numpy as np
+    from affine import Affine
+
+    from odc.geo import math as M
+    from odc.geo.types import xy_
+
+    kind = args["kind"]
+    fails = []
+    if kind == "decompose":
+        A = args["A"]
+        R, W, S = M.decompose_rws(A)
+        lin = lambda X: np.asarray([[X.a, X.b], [X.d, X.e]])
+        r, w, s = lin(R), lin(W), lin(S)
+        scale = max(1e-300, np.abs(lin(A)).max())
+        if not np.allclose(r @ w @ s, lin(A), atol=1e-9 * scale, rtol=1e-9):
+            fails.append("post:R W S multiplies back to the input (linear part)")
+        if not (np.allclose(r.T @ r, np.eye(2), atol=1e-9) and abs(np.linalg.det(r) - 1) < 1e-9):
+            fails.append("post:R is a proper rotation")
+        if not (abs(w[0, 0] - 1) < 1e-9 and abs(w[1, 1] - 1) < 1e-9 and abs(w[1, 0]) < 1e-9):
+            fails.append("post:W is a unit-diagonal shear")
+        if not (abs(s[0, 1]) < 1e-12 * scale and abs(s[1, 0]) < 1e-12 * scale):
+            fails.append("post:S is diagonal")
+        if not (R.c == A.c and R.f == A.f):
+            fails.append("post:translation carried by R")
+        return fails
+    if kind == "affine_from_pts":
+        A, pts = args["A"], args["pts"]
+        X = [xy_(p) for p in pts]
+        Y = [xy_(A * p) for p in pts]
+        B = M.affine_from_pts(X, Y)
+        scale = max(abs(v) for v in tuple(A)[:6])
+        if not np.allclose(tuple(B)[:6], tuple(A)[:6], atol=1e-7 * scale, rtol=1e-7):
+            fails.append(f"post:affine fit reproduces the mapping ({tuple(B)[:6]} vs {tuple(A)[:6]})")
+        return fails
+    # polynomial fits
+    n, model, pts, cf = args["n"], args["model"], args["pts"], args["coef"]
+    aa = np.asarray(pts, dtype="float64")
+    bb = np.asarray([_apply_model(model, cf, x, y) for x, y in pts], dtype="float64")
+    p = M.Poly2d.fit(aa.copy(), bb.copy())
+    scale = max(1.0, np.abs(bb).max())
+    got = p(aa)
+    if not np.allclose(got, bb, atol=1e-6 * scale, rtol=1e-7):
+        fails.append(f"post:the fit reproduces an exactly representable {model} mapping at the {n} given points (max err {np.abs(got - bb).max():.3g})")
+    # held-out points (the model is determined by the points, so it must hold everywhere nearby)
+    ho = np.asarray([(1.5, 2.25), (5.0, 3.0), (0.125, 7.5)])
+    want = np.asarray([_apply_model(model, cf, x, y) for x, y in ho])
+    if not np.allclose(p(ho), want, atol=1e-5 * max(scale, np.abs(want).max()), rtol=1e-6):
+        fails.append(f"post:the fitted {model} polynomial agrees with the mapping away from the fit points")
+    # chaining an input transform: q(x) == p(B x) -- unequal axis scales, then rotated
+    for B in (Affine(2.0, 0, 3.0, 0, -0.5, 1.0), Affine.rotation(30) * Affine.scale(1.5, 0.75)):
+        q = p.with_input_transform(B)
+        xs = np.asarray([(0.0, 0.0), (1.0, 2.0), (-3.0, 0.5)])
+        bx = np.asarray([B * tuple(v) for v in xs])
+        if not np.allclose(q(xs), p(bx), atol=1e-7 * scale, rtol=1e-9):
+            fails.append("post:with_input_transform composes correctly (q(x) == p(B x))")
+    # grid evaluation agrees with point evaluation
+    gx, gy = np.asarray([0.0, 1.0, 2.5]), np.asarray([-1.0, 4.0])
+    G = p.grid2d(gx, gy)
+    P_ = np.asarray([[p(np.asarray([[x, y]]))[0] for y in gy] for x in gx])  # (nx, ny, 2)
+    Gx = np.moveaxis(np.asarray(G), 0, -1) if np.asarray(G).shape[0] == 2 else np.asarray(G)
+    if Gx.shape == P_.shape and not np.allclose(Gx, P_, atol=1e-7 * scale, rtol=1e-9):
+        fails.append("post:grid2d agrees with point-wise evaluation")
+    return fails
+
+
+contract(
+    f"{MATH}:Poly2d.fit",
+    ["C20"],
+    ensures=[("rotation-shear-scale decomposition multiplies back; affine and polynomial fits reproduce exactly representable mappings and compose with an input transform", lambda result: True)],
+    verify=False,
+    trusted_reason="numpy.linalg (cholesky, inv, lstsq) and numpy.polynomial: BOUNDED native check of decompose_rws, affine_from_pts, Poly2d.fit/__call__/grid2d/with_input_transform",
+    native_samples=_linalg_samples,
+    native_oracle=_linalg_oracle,
 )
